@@ -23,6 +23,9 @@ Lemma eqb_count_cov p : String.eqb a_count (a_cov p) = false. Proof. reflexivity
 Lemma eqb_mean_count c : String.eqb (a_mean c) a_count = false. Proof. reflexivity. Qed.
 Lemma eqb_var_count c : String.eqb (a_var c) a_count = false. Proof. reflexivity. Qed.
 Lemma eqb_cov_count p : String.eqb (a_cov p) a_count = false. Proof. reflexivity. Qed.
+Lemma eqb_gmean c c' : String.eqb (a_gmean c) (a_gmean c') = String.eqb c c'. Proof. reflexivity. Qed.
+Lemma eqb_demean_gmean c c' : String.eqb (a_demean c) (a_gmean c') = false. Proof. reflexivity. Qed.
+Lemma eqb_gmean_demean c c' : String.eqb (a_gmean c) (a_demean c') = false. Proof. reflexivity. Qed.
 Lemma eqb_demean_var c c' : String.eqb (a_demean c) (a_var c') = false. Proof. reflexivity. Qed.
 Lemma eqb_demean_cov c p : String.eqb (a_demean c) (a_cov p) = false. Proof. reflexivity. Qed.
 
@@ -36,7 +39,8 @@ Definition data_col (c : string) : Prop := In c (r_mean q) \/ In c (r_covar q) \
 (* data columns are not named like generated aliases (tea-tasting's aliases start with an underscore) *)
 Hypothesis fresh : forall c, data_col c ->
   (forall x, String.eqb c (a_demean x) = false) /\ (forall x, String.eqb c (a_var x) = false) /\
-  (forall p, String.eqb c (a_cov p) = false) /\ (forall x, String.eqb c (a_mean x) = false) /\ String.eqb c a_count = false.
+  (forall p, String.eqb c (a_cov p) = false) /\ (forall x, String.eqb c (a_mean x) = false) /\ String.eqb c a_count = false /\
+  (forall x, String.eqb c (a_gmean x) = false).
 (* distinct covariance requests get distinct output names (see the known finding C01-alias-collision) *)
 Hypothesis cov_alias_inj : forall p p', In p (r_cov q) -> In p' (r_cov q) -> a_cov p = a_cov p' -> p = p'.
 (* r_covar is the union of the var columns and of both columns of every cov pair *)
@@ -44,21 +48,47 @@ Hypothesis var_in_covar : forall c, In c (r_var q) -> In c (r_covar q).
 Hypothesis cov_in_covar : forall p, In p (r_cov q) -> In (fst p) (r_covar q) /\ In (snd p) (r_covar q).
 
 (* ---------- stage 1: demeaned columns ---------- *)
+(* ungrouped: one step  _demean__c := c - mean(c);  grouped: the group means are joined back as columns _group_mean__c
+   first, then  _demean__c := c - _group_mean__c *)
 Definition d1 : list (string * expr) := map (fun c => (a_demean c, Sub (Col c) (MeanOver (Col c) g))) (r_covar q).
-Definition h1 : row -> row := wc_row d1 tbl.
+Definition d0 : list (string * expr) := map (fun c => (a_gmean c, MeanOver (Col c) g)) (r_covar q).
+Definition d1g : list (string * expr) := map (fun c => (a_demean c, Sub (Col c) (Col (a_gmean c)))) (r_covar q).
+Definition h0 : row -> row := wc_row d0 tbl.
+Definition tbl0 : table := map h0 tbl.
+Definition h1 : row -> row :=
+  match g with Some _ => fun r => wc_row d1g tbl0 (h0 r) | None => wc_row d1 tbl end.
 
+Lemma h0_data c r : data_col c -> h0 r c = r c.
+Proof.
+  intros Hc. unfold h0, wc_row, d0. rewrite lookup_map_miss; [reflexivity|].
+  intros x _. apply (fresh c Hc).
+Qed.
+Lemma h0_gmean c r : In c (r_covar q) -> h0 r (a_gmean c) = smean (colf c) (part g r tbl).
+Proof.
+  intros Hc. unfold h0, wc_row, d0.
+  rewrite (lookup_map_hit a_gmean (fun c => MeanOver (Col c) g) (r_covar q) c Hc); [reflexivity|].
+  intros x _ E. assert (x = c); [|subst; reflexivity].
+  apply String.eqb_eq. rewrite <- eqb_gmean. apply String.eqb_eq. exact E.
+Qed.
 Lemma h1_data c r : data_col c -> h1 r c = r c.
 Proof.
-  intros Hc. unfold h1, wc_row, d1. rewrite lookup_map_miss; [reflexivity|].
-  intros x _. apply (proj1 (fresh c Hc)).
+  intros Hc. unfold h1. destruct g as [gc|] eqn:Eg.
+  - unfold wc_row, d1g. rewrite lookup_map_miss by (intros x _; apply (proj1 (fresh c Hc))). apply h0_data. exact Hc.
+  - unfold wc_row, d1. rewrite lookup_map_miss; [reflexivity|]. intros x _. apply (proj1 (fresh c Hc)).
 Qed.
 Lemma h1_demean c r : In c (r_covar q) -> h1 r (a_demean c) = r c - smean (colf c) (part g r tbl).
 Proof.
-  intros Hc. unfold h1, wc_row, d1.
-  rewrite (lookup_map_hit a_demean (fun c => Sub (Col c) (MeanOver (Col c) g)) (r_covar q) c Hc).
-  - reflexivity.
-  - intros x _ E. assert (x = c); [|subst; reflexivity].
-    apply String.eqb_eq. rewrite <- eqb_demean. apply String.eqb_eq. exact E.
+  intros Hc. assert (Hd : data_col c) by (right; left; exact Hc). unfold h1. destruct g as [gc|] eqn:Eg.
+  - unfold wc_row, d1g.
+    rewrite (lookup_map_hit a_demean (fun c => Sub (Col c) (Col (a_gmean c))) (r_covar q) c Hc).
+    + cbn [ev]. rewrite (h0_data c r Hd). rewrite <- Eg. rewrite (h0_gmean c r Hc). reflexivity.
+    + intros x _ E. assert (x = c); [|subst; reflexivity].
+      apply String.eqb_eq. rewrite <- eqb_demean. apply String.eqb_eq. exact E.
+  - unfold wc_row, d1.
+    rewrite (lookup_map_hit a_demean (fun c => Sub (Col c) (MeanOver (Col c) g)) (r_covar q) c Hc).
+    + rewrite Eg. reflexivity.
+    + intros x _ E. assert (x = c); [|subst; reflexivity].
+      apply String.eqb_eq. rewrite <- eqb_demean. apply String.eqb_eq. exact E.
 Qed.
 Lemma keeps_of_data h : (forall c r, data_col c -> h r c = r c) -> keeps g h.
 Proof.
@@ -138,10 +168,20 @@ Definition unbias (e : expr) : expr := Div e (Sub (Lit 1) (Div (Lit 1) (Col a_co
 Definition d4 : list (string * expr) :=
   map (fun c => (a_var c, unbias (Col (a_var c)))) (r_var q) ++ map (fun p => (a_cov p, unbias (Col (a_cov p)))) (r_cov q).
 
+Definition demean_steps : list step :=
+  match g with Some _ => [WithColumns d0; WithColumns d1g] | None => [WithColumns d1] end.
 Lemma nw_plan_unfold :
-  nw_plan q g = (if has_covar then [WithColumns d1; WithColumns d2] else []) ++ [Aggregate g d3]
+  nw_plan q g = (if has_covar then demean_steps ++ [WithColumns d2] else []) ++ [Aggregate g d3]
                 ++ (if has_covar then [WithColumns d4] else []).
-Proof. reflexivity. Qed.
+Proof. unfold nw_plan, demean_steps, d0, d1g, d1. destruct g; reflexivity. Qed.
+Lemma run_plan_app p1 p2 t : run_plan (p1 ++ p2) t = run_plan p2 (run_plan p1 t).
+Proof. unfold run_plan. apply fold_left_app. Qed.
+(* the table after the demeaning step(s) *)
+Lemma demeaning_steps : run_plan demean_steps tbl = tbl1.
+Proof.
+  unfold demean_steps, tbl1, h1. destruct g; cbn [run_plan fold_left run_step]; [|reflexivity].
+  unfold with_columns. fold h0. fold tbl0. unfold tbl0 at 2. rewrite map_map. reflexivity.
+Qed.
 
 Lemma lookup_count_head rest : lookup a_count ((if r_has_count q || has_covar then [(a_count, AggLen)] else []) ++ rest)
   = if r_has_count q || has_covar then Some AggLen else lookup a_count rest.
@@ -176,7 +216,7 @@ Proof.
 Qed.
 Lemma d3_data c : data_col c -> lookup c d3 = None.
 Proof.
-  intros Hc. destruct (fresh c Hc) as (_ & Hv & Hcv & Hm & Hn). unfold d3.
+  intros Hc. destruct (fresh c Hc) as (_ & Hv & Hcv & Hm & Hn & _). unfold d3.
   rewrite lookup_skip_count by exact Hn.
   rewrite lookup_app, lookup_map_miss by (intros; apply Hm).
   rewrite lookup_app, lookup_map_miss by (intros; apply Hv).
@@ -213,8 +253,8 @@ Lemma nw_denotes_covar : has_covar = true ->
   exists F, run_plan (nw_plan q g) tbl = map F (reps g tbl) /\
             forall rep, In rep (reps g tbl) -> (2 <= length (part g rep tbl))%nat -> exact_for rep (F rep).
 Proof.
-  intros Hc. rewrite nw_plan_unfold, Hc. cbn [app run_plan fold_left run_step].
-  change (with_columns d1 tbl) with tbl1. change (with_columns d2 tbl1) with (map h2 tbl1).
+  intros Hc. rewrite nw_plan_unfold, Hc. rewrite !run_plan_app, demeaning_steps. cbn [run_plan fold_left run_step].
+  change (with_columns d2 tbl1) with (map h2 tbl1).
   unfold tbl1. rewrite map_map. change (map (fun x => h2 (h1 x)) tbl) with (map h12 tbl).
   unfold aggregate. rewrite (reps_map g h12 tbl keeps_h12), map_map.
   set (tbl2 := map h12 tbl). assert (Etbl2 : tbl2 = map h12 tbl) by reflexivity.
@@ -296,7 +336,7 @@ Proof.
     rewrite (lookup_map_hit a_cov (fun p => AggCov true (Cast (Col (fst p))) (Cast (Col (snd p)))) (r_cov q) p Hp); [reflexivity|].
     intros x Hx E. rewrite (cov_alias_inj x p Hx Hp E). reflexivity.
   - intros c Eg. assert (Hd : data_col c) by (right; right; exact Eg).
-    destruct (fresh c Hd) as (_ & Hv & Hcv & Hm & Hn). unfold agg_row, dn.
+    destruct (fresh c Hd) as (_ & Hv & Hcv & Hm & Hn & _). unfold agg_row, dn.
     rewrite Hskip by exact Hn. rewrite lookup_app, lookup_map_miss by (intros; apply Hm).
     rewrite lookup_app, lookup_map_miss by (intros; apply Hv). rewrite lookup_map_miss by (intros; apply Hcv). reflexivity.
 Qed.
@@ -358,7 +398,7 @@ Proof.
 Qed.
 Lemma d3f_data c : data_col c -> lookup c d3f = None.
 Proof.
-  intros Hc. destruct (fresh c Hc) as (_ & Hv & Hcv & Hm & Hn). unfold d3f.
+  intros Hc. destruct (fresh c Hc) as (_ & Hv & Hcv & Hm & Hn & _). unfold d3f.
   rewrite d3f_skip by exact Hn.
   rewrite lookup_app, lookup_map_miss by (intros; apply Hm).
   rewrite lookup_app, lookup_map_miss by (intros; apply Hv).
